@@ -227,7 +227,7 @@ proof fn lemma_merged_flags(a: u32, b: u32, hv: bool, he: bool, flags: u32)
     proof { lemma_consts(); }
 //@ before `while let Some(action) =` #1
         proof {
-            assert(rem_f(*r[0], file_data_header[0]) =~= fa0); assert(rem_f(*r[1], file_data_header[1]) =~= fa1);
+            /*@C10*/ assert(rem_f(*r[0], file_data_header[0]) =~= fa0); /*@C10*/ assert(rem_f(*r[1], file_data_header[1]) =~= fa1);
         }
 //@ loop 1
             invariant
@@ -243,9 +243,9 @@ proof fn lemma_merged_flags(a: u32, b: u32, hv: bool, he: bool, flags: u32)
 //@ before `let vx_arr1 = [0, 1];`
             let ghost f0 = out.fhdrs@; let ghost sa = rem_f(*r[0], file_data_header[0]); let ghost sb = rem_f(*r[1], file_data_header[1]); let ghost ax = action[0]; let ghost ay = action[1];
             proof {
-                assert(hd(sa) == file_data_header[0] && hd(sb) == file_data_header[1]);
+                /*@C10*/ assert(hd(sa) == file_data_header[0] && hd(sb) == file_data_header[1]);   // tagged: the loaded headers are the heads of what remains
                 lemma_merge_files_step(sa, sb, op);
-                assert(file_table(hd(sa), hd(sb), op) == Some((ax, ay)));
+                /*@C10*/ assert(file_table(hd(sa), hd(sb), op) == Some((ax, ay)));   // tagged: the action pair taken is the table's answer for these heads
             }
 //@ loop 2
                 invariant
@@ -269,18 +269,18 @@ proof fn lemma_merged_flags(a: u32, b: u32, hv: bool, he: bool, flags: u32)
                 let ghost fcur = out.fhdrs@; let ghost fi_0 = r[0].fi@; let ghost fi_1 = r[1].fi@; let ghost n_0 = fa0.len() as int; let ghost n_1 = fa1.len() as int;
 //@ after `vx_load_next_r })?;` #1
                         proof {
-                            if i == 0 { assert(rem_f(*r[0], file_data_header[0]) =~= fa0.subrange(fi_0 - 1, n_0).drop_first()); }
-                            else { assert(rem_f(*r[1], file_data_header[1]) =~= fa1.subrange(fi_1 - 1, n_1).drop_first()); }
+                            if i == 0 { /*@C10*/ assert(rem_f(*r[0], file_data_header[0]) =~= fa0.subrange(fi_0 - 1, n_0).drop_first()); }
+                            else { /*@C10*/ assert(rem_f(*r[1], file_data_header[1]) =~= fa1.subrange(fi_1 - 1, n_1).drop_first()); }
                         }
 //@ after `vx_load_next_r })?;` #2
                         proof {
-                            if i == 0 { assert(rem_f(*r[0], file_data_header[0]) =~= fa0.subrange(fi_0 - 1, n_0).drop_first()); }
-                            else { assert(rem_f(*r[1], file_data_header[1]) =~= fa1.subrange(fi_1 - 1, n_1).drop_first()); }
+                            if i == 0 { /*@C10*/ assert(rem_f(*r[0], file_data_header[0]) =~= fa0.subrange(fi_0 - 1, n_0).drop_first()); }
+                            else { /*@C10*/ assert(rem_f(*r[1], file_data_header[1]) =~= fa1.subrange(fi_1 - 1, n_1).drop_first()); }
                         }
 //@ after `vx_load_next_r })?;` #4
                         proof {
-                            assert(rem_f(*r[0], file_data_header[0]) =~= fa0.subrange(fi_0 - 1, n_0).drop_first());
-                            assert(rem_f(*r[1], file_data_header[1]) =~= fa1.subrange(fi_1 - 1, n_1).drop_first());
+                            /*@C10*/ assert(rem_f(*r[0], file_data_header[0]) =~= fa0.subrange(fi_0 - 1, n_0).drop_first());
+                            /*@C10*/ assert(rem_f(*r[1], file_data_header[1]) =~= fa1.subrange(fi_1 - 1, n_1).drop_first());
                         }
 //@ loop 3
                             invariant
@@ -311,19 +311,19 @@ proof fn lemma_merged_flags(a: u32, b: u32, hv: bool, he: bool, flags: u32)
                         proof {
                             lemma_consts(); lemma_flag_bits(has_verification, has_metadata_ext, header.file_flags);
                             lemma_merged_flags(fh0.file_flags, fh1.file_flags, has_verification, has_metadata_ext, header.file_flags);
-                            assert(header == merged_header(*fh0, *fh1));
+                            /*@C10*/ assert(header == merged_header(*fh0, *fh1));   // tagged: the header written for a Merge is the specified merged header
                         }
 //@ before `out_offset += FileDataSequenceHeader::bookend().serialize(out)? as u64;`
         proof {
-            assert(file_data_header[0] is None && file_data_header[1] is None);
+            /*@C10*/ assert(file_data_header[0] is None && file_data_header[1] is None);   // tagged: the merge stops only when both sides are exhausted
             lemma_merge_files_step(Seq::<FileDataSequenceHeader>::empty(), Seq::<FileDataSequenceHeader>::empty(), op);
-            assert(out.fhdrs@ =~= fh_init + merge_files(fa0, fa1, op));
+            /*@C10*/ assert(out.fhdrs@ =~= fh_init + merge_files(fa0, fa1, op));
         }
 //@ after `footer.cas_info_offset = out_offset;`
         proof { nf = out.log@.len() - b0 - 1; }
 //@ before `while let Some(action) =` #2
         proof {
-            assert(rem_c(*r[0], cas_data_header[0]) =~= ca0); assert(rem_c(*r[1], cas_data_header[1]) =~= ca1);
+            /*@C10*/ assert(rem_c(*r[0], cas_data_header[0]) =~= ca0); /*@C10*/ assert(rem_c(*r[1], cas_data_header[1]) =~= ca1);
         }
 //@ loop 7
             invariant
@@ -339,9 +339,9 @@ proof fn lemma_merged_flags(a: u32, b: u32, hv: bool, he: bool, flags: u32)
 //@ before `let vx_arr2 = [0, 1];`
             let ghost g0 = out.chdrs@; let ghost sc = rem_c(*r[0], cas_data_header[0]); let ghost sd = rem_c(*r[1], cas_data_header[1]); let ghost cx = action[0]; let ghost cy = action[1];
             proof {
-                assert(hd(sc) == cas_data_header[0] && hd(sd) == cas_data_header[1]);
+                /*@C10*/ assert(hd(sc) == cas_data_header[0] && hd(sd) == cas_data_header[1]);
                 lemma_merge_cas_step(sc, sd, op);
-                assert(key_table(cas_key(hd(sc)), cas_key(hd(sd)), op) == Some((cx, cy)));
+                /*@C10*/ assert(key_table(cas_key(hd(sc)), cas_key(hd(sd)), op) == Some((cx, cy)));   // tagged: the action pair taken is the table's answer for these heads
             }
 //@ loop 8
                 invariant
@@ -365,13 +365,13 @@ proof fn lemma_merged_flags(a: u32, b: u32, hv: bool, he: bool, flags: u32)
                 let ghost gcur = out.chdrs@; let ghost ci_0 = r[0].ci@; let ghost ci_1 = r[1].ci@; let ghost m_0 = ca0.len() as int; let ghost m_1 = ca1.len() as int;
 //@ after `vx_load_next_r })?;` #5
                         proof {
-                            if i == 0 { assert(rem_c(*r[0], cas_data_header[0]) =~= ca0.subrange(ci_0 - 1, m_0).drop_first()); }
-                            else { assert(rem_c(*r[1], cas_data_header[1]) =~= ca1.subrange(ci_1 - 1, m_1).drop_first()); }
+                            if i == 0 { /*@C10*/ assert(rem_c(*r[0], cas_data_header[0]) =~= ca0.subrange(ci_0 - 1, m_0).drop_first()); }
+                            else { /*@C10*/ assert(rem_c(*r[1], cas_data_header[1]) =~= ca1.subrange(ci_1 - 1, m_1).drop_first()); }
                         }
 //@ after `vx_load_next_r })?;` #6
                         proof {
-                            if i == 0 { assert(rem_c(*r[0], cas_data_header[0]) =~= ca0.subrange(ci_0 - 1, m_0).drop_first()); }
-                            else { assert(rem_c(*r[1], cas_data_header[1]) =~= ca1.subrange(ci_1 - 1, m_1).drop_first()); }
+                            if i == 0 { /*@C10*/ assert(rem_c(*r[0], cas_data_header[0]) =~= ca0.subrange(ci_0 - 1, m_0).drop_first()); }
+                            else { /*@C10*/ assert(rem_c(*r[1], cas_data_header[1]) =~= ca1.subrange(ci_1 - 1, m_1).drop_first()); }
                         }
 //@ loop 9
                             invariant
@@ -382,9 +382,9 @@ proof fn lemma_merged_flags(a: u32, b: u32, hv: bool, he: bool, flags: u32)
                                 rd_c(*r[0], fa0, ca0, cas_data_header[0]), rd_c(*r[1], fa1, ca1, cas_data_header[1]), out.fhdrs@ =~= fh_init + merge_files(fa0, fa1, op), out.chdrs@ == gcur.push(*fh), r[0].ci@ == ci_0, r[1].ci@ == ci_1,
 //@ before `out_offset += CASChunkSequenceHeader::bookend().serialize(out)? as u64;`
         proof {
-            assert(cas_data_header[0] is None && cas_data_header[1] is None);
+            /*@C10*/ assert(cas_data_header[0] is None && cas_data_header[1] is None);
             lemma_merge_cas_step(Seq::<CASChunkSequenceHeader>::empty(), Seq::<CASChunkSequenceHeader>::empty(), op);
-            assert(out.chdrs@ =~= ch_init + merge_cas(ca0, ca1, op));
+            /*@C10*/ assert(out.chdrs@ =~= ch_init + merge_cas(ca0, ca1, op));
         }
 //@ after `footer.file_lookup_offset = out_offset;`
         proof { nc = out.log@.len() - b0 - 1 - nf; t1 = b0 + 1 + nf + nc; }
